@@ -142,6 +142,46 @@ pub struct SzxOptions {
     pub fe_low: Option<u8>,
     /// bits 3 (MIC) and 4 (EAR/speaker) of SPCR.chFe: the output levels at the time of the snapshot
     pub fe_hi: u8,
+    /// one more chunk of this many bytes with the id of a standard chunk rustzx does not implement (an
+    /// embedded tape or disk image); 0 = none
+    pub big_unknown: usize,
+    /// `(index of the RAMP chunk, wanted length of its zlib stream)`: that page is written as a hand-made zlib
+    /// stream (one stored block followed by a deflated rest) of exactly that many bytes, when the page content
+    /// allows it (see `zlib_exact`)
+    pub zlib_exact: Option<(usize, usize)>,
+}
+
+fn adler32(data: &[u8]) -> u32 {
+    let (mut a, mut b) = (1u32, 0u32);
+    for &x in data {
+        a = (a + x as u32) % 65521;
+        b = (b + a) % 65521;
+    }
+    (b << 16) | a
+}
+
+/// A valid zlib stream for `data` that is exactly `target` bytes long: a non-final stored block holding the
+/// first L bytes, then the raw deflate stream of the rest. L is searched; `None` when no L gives the length
+/// (the tail of `data` has to be compressible, e.g. zeros from about `target - 64` on).
+pub fn zlib_exact(data: &[u8], target: usize) -> Option<Vec<u8>> {
+    let lo = target.saturating_sub(96).min(data.len());
+    for l in lo..=data.len().min(65535) {
+        let rest = miniz_oxide::deflate::compress_to_vec(&data[l..], 6);
+        let total = 2 + 5 + l + rest.len() + 4;
+        if total == target {
+            let mut v = vec![0x78, 0x9C, 0x00];
+            v.extend_from_slice(&(l as u16).to_le_bytes());
+            v.extend_from_slice(&(!(l as u16)).to_le_bytes());
+            v.extend_from_slice(&data[..l]);
+            v.extend_from_slice(&rest);
+            v.extend_from_slice(&adler32(data).to_be_bytes());
+            return Some(v);
+        }
+        if total > target + 8 {
+            break;
+        }
+    }
+    None
 }
 
 fn chunk(id: &[u8; 4], data: &[u8]) -> Vec<u8> {
@@ -198,7 +238,14 @@ pub fn write_szx(s: &SnapState, opt: &SzxOptions) -> Vec<u8> {
         let mut d = vec![];
         d.extend_from_slice(&(comp as u16).to_le_bytes());
         d.push(p as u8);
-        if comp {
+        let exact = match opt.zlib_exact {
+            Some((idx, target)) if idx == i => zlib_exact(&s.banks[p], target),
+            _ => None,
+        };
+        if let Some(z) = exact {
+            d[0] = 1;
+            d.extend_from_slice(&z);
+        } else if comp {
             d.extend_from_slice(&miniz_oxide::deflate::compress_to_vec_zlib(&s.banks[p], 6));
         } else {
             d.extend_from_slice(&s.banks[p]);
@@ -236,6 +283,12 @@ pub fn write_szx(s: &SnapState, opt: &SzxOptions) -> Vec<u8> {
         let id = [b'X', b'U', b'0' + (k % 10) as u8, b'Z'];
         let len = next() % 40;
         let data: Vec<u8> = (0..len).map(|i| (i * 7 + k) as u8).collect();
+        let at = next() % (chunks.len() + 1);
+        chunks.insert(at, chunk(&id, &data));
+    }
+    if opt.big_unknown > 0 {
+        let id = [*b"TAPE", *b"DSK\0", *b"ROM\0", *b"XUBG"][next() % 4];
+        let data: Vec<u8> = (0..opt.big_unknown).map(|i| (i * 13 + 5) as u8).collect();
         let at = next() % (chunks.len() + 1);
         chunks.insert(at, chunk(&id, &data));
     }
